@@ -38,13 +38,17 @@ Assumed('wpull/protocol/http/request.py', 'Request.prepare_for_send', {'self': T
         defaults={'full_url': False}, requires=['self._url_info is not None', 'truthy(self._url)', 'truthy(self.method)', 'truthy(self.version)'], modifies=['self.fields.map', 'self.fields.count', 'self.resource_path'],
         ensures=['"Host" in self.fields.map',
                  'implies(not ("Host" in old(self.fields.map)), self.fields.map["Host"] == hostname_with_port(self._url_info))',
-                 'implies("Host" in old(self.fields.map), self.fields.map["Host"] == old(self.fields.map)["Host"])',
-                 'forall_str(lambda k: implies(k != "Host", (k in self.fields.map) == (k in old(self.fields.map)) and implies(k in self.fields.map, self.fields.map[k] == old(self.fields.map)[k])))'],
+                 'implies(not ("Host" in old(self.fields.map)), self.fields.count["Host"] == 1)',
+                 'implies(not ("Authorization" in old(self.fields.map)), not ("Authorization" in self.fields.map)) and implies(not ("Cookie" in old(self.fields.map)), not ("Cookie" in self.fields.map))'],
         raises={'AssertionError': []}, note='verified against its body under C16 (specs/request.py)')
 _hwp = z3.Function('hostname_with_port', z3.IntSort(), z3.StringSort())
 SPECFUNS['hostname_with_port'] = lambda ex, st, u: VStr(_hwp(u.term))
-Assumed('wpull/url.py', 'URLInfo.hostname_with_port', {'self': TObj('URLInfo')}, ret=TStr(), is_property=True, ensures=['result == hostname_with_port(self)'],
-        raises={'AssertionError': []}, note='accessor; verified under C10/C11')
+_hoh = z3.Function('host_of_hwp', z3.StringSort(), z3.StringSort())
+SPECFUNS['host_of_hwp'] = lambda ex, st, s_: VStr(_hoh(s_.term))
+Assumed('wpull/url.py', 'URLInfo.hostname_with_port', {'self': TObj('URLInfo')}, name='URLInfo.hostname_with_port@call', ret=TStr(), is_property=True,
+        ensures=['result == hostname_with_port(self)', 'host_of_hwp(result) == (self.hostname if self.hostname is not None else "")'],
+        raises={'AssertionError': []}, note='call-site view; body verified under C10/C11/C16 (specs/url.py: host, bracketed IPv6, port only if non-default). ASSUMED LEMMA: '
+        'the host-and-port text determines the host name (a host name has no ":" unless it is a bracketed IPv6 literal) -- exercised by bounded/c16_wire.py')
 Assumed(W, 'WebSession._extract_cookies', dict(S, response=TObj('HTTPResponse')), raises={}, note='cookie jar: http.cookiejar (assumed)')
 Assumed(W, 'WebSession._add_cookies', dict(S, request=TObj('HTTPRequest')), modifies=['request.fields.map', 'request.fields.count'], raises={},
         note='cookie jar: http.cookiejar (assumed)')
@@ -56,11 +60,11 @@ Assumed(W, 'WebSession._add_basic_auth_header', dict(S, request=TObj('HTTPReques
 # ---- C18: follow-up only within the limit -------------------------------------------------------------------------
 Contract(W, 'WebSession._process_redirect', S, prop='C18',
     requires=['self._redirect_tracker._response is not None', 'self._redirect_tracker._response.request is not None',
-              'self._redirect_tracker._response.request._url_info is not None', 'truthy(self._original_request.method)', 'truthy(self._original_request.version)'],
+              'self._redirect_tracker._response.request._url_info is not None', 'truthy(self._original_request.method)', 'truthy(self._original_request.version)', 'self._original_request._url_info is not None'],
     modifies=['self._next_request', 'all_of("NameValueRecord.map")', 'all_of("NameValueRecord.count")', 'all_of("HTTPRequest.resource_path")',
               'all_of("HTTPRequest._url")', 'all_of("HTTPRequest._url_info")'],
     ensures=[('installed', 'self._next_request is not None'), ('has-url', 'self._next_request._url_info is not None'),
-             ('within-limit', '%s <= %s' % (R, MAX)),
+             ('within-limit', '%s <= %s' % (R, MAX)), ('original-keeps-its-url', 'self._original_request._url_info == old(self._original_request._url_info)'),
              ('location', 'truthy(old(self._redirect_tracker._response.fields.get("location")))')],
     raises={'ProtocolError': [], 'AssertionError': []})
 Contract(W, 'WebSession._process_authentication', dict(S, response=TObj('HTTPResponse')), prop='C18',
@@ -73,7 +77,7 @@ Contract(W, 'WebSession._process_authentication', dict(S, response=TObj('HTTPRes
     raises={'AssertionError': []})
 PR_REQ = ['self._next_request is not None', 'self._next_request._url_info is not None', 'response.request is not None',
           'response.request._url_info is not None', 'response.status_code is not None', J, '%s >= 0' % R,
-          'self.g_auth_retries >= 0', 'self.g_auth_retries <= 1', 'truthy(self._original_request.method)', 'truthy(self._original_request.version)', 'implies(self.g_auth_retries >= 1, self._loop_type == %s)' % AUTH]
+          'self.g_auth_retries >= 0', 'self.g_auth_retries <= 1', 'truthy(self._original_request.method)', 'truthy(self._original_request.version)', 'self._original_request._url_info is not None', 'implies(self.g_auth_retries >= 1, self._loop_type == %s)' % AUTH]
 # (the requires above is implied by the visit invariant because _next_request is not None here)
 Contract(W, 'WebSession._process_response', dict(S, response=TObj('HTTPResponse')), prop='C18',
     requires=PR_REQ,
@@ -86,7 +90,7 @@ Contract(W, 'WebSession._process_response', dict(S, response=TObj('HTTPResponse'
               .format(r=R, m=MAX, rd=REDIR, a=AUTH)),
              ('J', J), ('next-has-url', 'implies(self._next_request is not None, self._next_request._url_info is not None)'),
              ('variant', 'implies(self._next_request is not None, %s < old(%s) and %s >= 0)' % (M, M, M)),
-             ('counter-monotone', '%s >= old(%s)' % (R, R)),
+             ('counter-monotone', '%s >= old(%s)' % (R, R)), ('original-keeps-its-url', 'self._original_request._url_info == old(self._original_request._url_info)'),
              # the literal clause of the statement: at most ONE authentication retry per visit
              ('ghost-nonneg', 'self.g_auth_retries >= 0'),
              ('pending-means-intermediate', 'implies(self._next_request is not None, truthy(self._redirect_tracker.is_redirect()) or self._loop_type == %s)' % AUTH),
